@@ -47,6 +47,6 @@ Definition prop_fail (c : case) : nat :=
   end.
 Definition in_class (c : case) : bool :=
   match c with
-  | CStep s => match sc_out s with Some (fgs, _) => two_owners fgs | None => false end
+  | CStep s => false     (* shared_atom_names (8dbd471) and shared_from_two_owners (e15e5bd) are repaired: nothing is excused *)
   | _ => false
   end.
